@@ -311,6 +311,10 @@ def gen_objects(rng, n, plain=False):
                 L.append("COMPLETED:2024%02d01T000000Z" % rng.randint(1, 12))
         if rng.random() < 0.3:
             L.append("X-CUSTOM:" + rng.choice(["alpha", "Beta", "gamma delta"]))
+        own = L[L.index("BEGIN:" + kind):]
+        if rng.random() < 0.3 and kind == "VEVENT" and any(l.startswith("DTSTART:") for l in own):
+            # a recurring event (its RRULE is a property like any other for prop-filters)
+            L.append("RRULE:" + rng.choice(["FREQ=DAILY;COUNT=3", "FREQ=WEEKLY;COUNT=4"]))
         if rng.random() < 0.3:
             # values that are falsy once parsed
             L.append(rng.choice(["PRIORITY:0", "SEQUENCE:0", "PRIORITY:5", "SEQUENCE:2"]))
@@ -354,7 +358,7 @@ def gen_filter(rng):
                     inner["children"].append({"type": "comp", "name": "VALARM", "children": [{"type": "prop", "name": "ACTION", "text_match": {"text": rng.choice(["DISPLAY", "display", "AUD", "EMAIL"])}}]})
                 continue
             pname = rng.choice(["SUMMARY", "SUMMARY", "DESCRIPTION", "LOCATION", "CATEGORIES", "UID", "X-CUSTOM", "ATTENDEE", "STATUS", "DTSTART", "COMPLETED", "PRIORITY", "SEQUENCE",
-                                "PERCENT-COMPLETE", "COMMENT"])
+                                "PERCENT-COMPLETE", "COMMENT", "RRULE", "RRULE"])
             pf = {"type": "prop", "name": pname}
             k2 = rng.random()
             if k2 < 0.15:
@@ -409,6 +413,15 @@ def run_generic(run, args, rng):
     for i in range(args["gen_filters"]):
         flt, feats = gen_filter(rng)
         fs = "+".join(sorted(set(feats)))
+        if i % 9 == 4:
+            # what calendar clients do between their searches: a report that asks for expanded recurrences.
+            # It is a read; the answers of the filters that follow must not depend on it
+            exp = ('<C:calendar-data><C:expand start="20240101T000000Z" end="20250101T000000Z"/></C:calendar-data>')
+            body = (f'<?xml version="1.0" encoding="utf-8"?><C:calendar-query {X.NS}><D:prop><D:getetag/>{exp}</D:prop><C:filter><C:comp-filter name="VCALENDAR">'
+                    '<C:comp-filter name="VEVENT"/></C:comp-filter></C:filter></C:calendar-query>').encode()
+            s_, r_ = w.report(colpath, body, record=False)
+            res.count("expand_reports")
+            res.count("expand_report_status:%s" % s_.status)
 
         def sigfn(n, lab, kind, fs=fs):
             return f"filter/{fs}/{kind}"
@@ -464,7 +477,7 @@ def check(tier, seed, t0):
     k = 1 if not th else 8
     guards = [("queries", c.get("queries", 0), 2500 * (1 if not th else 4)), ("(object, query) judgements", c.get("judgements", 0), 90000 * (1 if not th else 4)),
               ("expected matches", c.get("expected_match", 0), 5000 * k), ("expected non-matches", c.get("expected_nomatch", 0), 5000 * k),
-              ("calendar-data comparisons", c.get("calendar_data_compared", 0), 3000 * k)]
+              ("calendar-data comparisons", c.get("calendar_data_compared", 0), 3000 * k), ("reports with expanded recurrences between the filter queries (answered 207)", c.get("expand_report_status:207", 0), 50)]
     rows = sorted({lab.rsplit("/", 1)[0] for (lab, _, _, _) in row_objects()})
     for r in rows:
         if r not in ("VFREEBUSY/none", "VJOURNAL/none"):      # FALSE by definition
